@@ -263,8 +263,8 @@ def check_git(sb, branches, tags, version, res):
 
 REMOTE_BRANCHES_Q = ["master", "8", "8.0", "users/jdoe/8.3", "backport/9"]
 REMOTE_BRANCHES_T = REMOTE_BRANCHES_Q + ["7", "feature/8.3.0"]
-REMOTE_VERSIONS_Q = ["8.3.0", "9.1.0", "8.0.1"]
-REMOTE_VERSIONS_T = REMOTE_VERSIONS_Q + ["7.17.0", None]
+REMOTE_VERSIONS_Q = ["8.3.0", "9.1.0", "8.0.1", "7.17.0"]
+REMOTE_VERSIONS_T = REMOTE_VERSIONS_Q + ["6.8.0", None]
 
 
 class RemoteSandbox(GitSandbox):
